@@ -45,6 +45,29 @@ def simplify_env(env, atoms_taken, domain, maxden_steps=(1, 2, 4, 8, 10, 16, 64,
     return cur
 
 
+class _alarm:
+    """wall-clock budget of one path (a symbolic run that loops without deciding anything)"""
+
+    def __init__(self, seconds):
+        self.seconds = seconds
+
+    def _fire(self, signum, frame):
+        raise Budget(f"path exceeded {self.seconds}s")
+
+    def __enter__(self):
+        import signal
+
+        self.old = signal.signal(signal.SIGALRM, self._fire)
+        signal.setitimer(signal.ITIMER_REAL, self.seconds)
+
+    def __exit__(self, *a):
+        import signal
+
+        signal.setitimer(signal.ITIMER_REAL, 0)
+        signal.signal(signal.SIGALRM, self.old)
+        return False
+
+
 class Leaf:
     __slots__ = ("env", "ndec", "exc", "out", "kind", "info", "pc", "nl", "concretized", "tb")
 
@@ -64,6 +87,7 @@ def explore(
     raw=False,
     verbose=False,
     max_decisions=20000,
+    path_timeout=120,
 ):
     """Explore every feasible control path of ``fn(xs)`` where xs are symbolic reals.
 
@@ -117,7 +141,8 @@ def explore(
         leaf.out = None
         leaf.tb = None
         try:
-            leaf.out = fn(xs)
+            with _alarm(path_timeout):
+                leaf.out = fn(xs)
             leaf.kind = "return"
         except Band as e:
             leaf.kind = "band"
@@ -158,14 +183,14 @@ def explore(
         # schedule the alternatives of the decisions beyond the forced prefix
         tr.solver.push()
         for a, tk in dec[: len(prefix)]:
-            tr.solver.add(a.z3(tr) if tk in (True, None) else z3.Not(a.z3(tr)))
+            tr.solver.add(a.z3(tr) if tk in (True, None) else a.z3neg(tr))
         for i in range(len(prefix), len(dec)):
             a, tk = dec[i]
             if tk is None:
                 tr.solver.add(a.z3(tr))
                 continue
             za = a.z3(tr)
-            alt = z3.Not(za) if tk else za
+            alt = a.z3neg(tr) if tk else za
             nl = a.p.degree() > 1
             r, m = tr.check(alt, timeout_ms=tr.nl_timeout_ms if nl else None)
             if r == "sat":
@@ -176,7 +201,7 @@ def explore(
                 stats["infeasible_alt"] += 1
             else:
                 stats["unknown_alt"] += 1
-            tr.solver.add(za if tk else z3.Not(za))
+            tr.solver.add(za if tk else a.z3neg(tr))
         tr.solver.pop()
     stats["exhaustive"] = (not work) and not out_of_budget and stats["unknown_alt"] == 0 and stats["diverged"] == 0
     stats["out_of_budget"] = out_of_budget
